@@ -142,6 +142,11 @@ def judge (j : Json) : R Verdict := do
     if !(isNull (fieldD l "panic")) || !(isNull (fieldD r "panic")) then spec := spec ++ ["no-panic:expr-law"]
     else if (l.getObjVal? "ok").isOk || (r.getObjVal? "ok").isOk then
       if l.compress != r.compress then spec := spec ++ ["sub_is_add_neg:reduced-expressions"]
+    -- the reducer's + on two asset lists is the + of the values, in either order
+    let va := fieldD obs "value_add"
+    if !(isNull va) then
+      if (fieldD obs "add").compress != va.compress then spec := spec ++ ["add:reduced-expressions-vs-values"]
+      if (fieldD obs "add_flipped").compress != va.compress then spec := spec ++ ["add_comm:reduced-expressions"]
     return { i, corr := [], spec, key := fnv ((fieldD j "a").compress ++ "-" ++ (fieldD j "b").compress), tags := [gen], nt := true }
   let ea ← parseV (← field j "a")
   let eb ← parseV (← field j "b")
